@@ -33,6 +33,7 @@ import (
 // different requests never coincide in virtual time while events of ONE request
 // (handler finish / deadline / client cancel) coincide whenever the case says so.
 const (
+	c02ReadPiece   = 16
 	c02Tick        = 100 * time.Microsecond
 	c02TickUS      = 100
 	c02GroupGapUS  = 11_000_000 // 11 s between groups: longer than the breaker window (10 s)
@@ -42,8 +43,8 @@ const (
 )
 
 type c02Step struct {
-	K string `json:"k"`           // H set header, S WriteHeader, W one Write, M many Writes, Z sleep, C wait ctx.Done, P panic
-	N int    `json:"n,omitempty"` // S: status, W: chunk repetitions in the one Write (~9 B each), M: number of one-chunk Writes, Z: ticks
+	K string `json:"k"`           // H set header, S WriteHeader, W one Write, M many Writes, Z sleep, C wait ctx.Done, P panic, R read the request body slowly
+	N int    `json:"n,omitempty"` // S: status, W: chunk repetitions in the one Write (~9 B each), M: number of one-chunk Writes, Z: ticks, R: ticks slept after every 16 body bytes read
 }
 
 type c02Req struct {
@@ -164,20 +165,22 @@ func (c c02Case) optClasses(cls map[string]bool) {
 // reference model of one request (from the statement)
 
 type c02Plan struct {
-	d         int   // deadline in ticks after arrival seen by the timeout guard; -1: none
-	kinds     []int // statuses the timeout response may carry
-	f         int   // instant (ticks after arrival) at which the handler returns or panics
-	panics    bool
-	big       bool              // the handler's body is larger than 1 KB
-	badStatus bool              // the panic is raised inside WriteHeader by an out-of-range status code
-	code      int               // status of the handler's own response
-	commit    bool              // handler called WriteHeader or Write
-	hdr       map[string]string // marker headers of the handler's own response
-	body      []byte            // body of the handler's own response
-	before    bool              // handler wrote strictly before the deadline
-	after     bool              // handler wrote at/after the deadline
-	risky     bool              // may produce a response >= 500 that the per-route breaker sees
-	behaved   bool              // returns no later than the deadline
+	d          int   // deadline in ticks after arrival seen by the timeout guard; -1: none
+	kinds      []int // statuses the timeout response may carry
+	f          int   // instant (ticks after arrival) at which the handler returns or panics
+	panics     bool
+	reads      bool              // the handler reads the request body
+	readAcross bool              // ... and is in the middle of doing so when the deadline fires
+	big        bool              // the handler's body is larger than 1 KB
+	badStatus  bool              // the panic is raised inside WriteHeader by an out-of-range status code
+	code       int               // status of the handler's own response
+	commit     bool              // handler called WriteHeader or Write
+	hdr        map[string]string // marker headers of the handler's own response
+	body       []byte            // body of the handler's own response
+	before     bool              // handler wrote strictly before the deadline
+	after      bool              // handler wrote at/after the deadline
+	risky      bool              // may produce a response >= 500 that the per-route breaker sees
+	behaved    bool              // returns no later than the deadline
 }
 
 // c02BadStatus: codes on which net/http's ResponseWriter.WriteHeader panics ("invalid
@@ -222,6 +225,7 @@ func c02MakePlan(c c02Case, id int, q c02Req) c02Plan {
 		ctxDone = q.Cn
 	}
 	e := 0
+	bodyLeft := q.BL // bytes the handler can still read (the gunzipped length for a gzip body)
 	waited := false
 	wrote := func() {
 		if p.d >= 0 && (e > p.d || (e == p.d && waited)) {
@@ -262,6 +266,15 @@ loop:
 			wrote()
 		case "Z":
 			e += s.N
+		case "R":
+			// io.ReadFull in 16-byte pieces, sleeping N ticks after every piece that delivered bytes
+			pieces := (bodyLeft + c02ReadPiece - 1) / c02ReadPiece
+			bodyLeft = 0
+			p.reads = true
+			if p.d >= 0 && pieces > 0 && e <= p.d && e+pieces*s.N > p.d {
+				p.readAcross = true
+			}
+			e += pieces * s.N
 		case "C":
 			if ctxDone >= 0 && e <= ctxDone {
 				e = ctxDone
@@ -486,6 +499,10 @@ func c02Valid(c c02Case) bool {
 					if s.N < 0 {
 						return false
 					}
+				case "R":
+					if s.N < 0 || q.BB {
+						return false // a body that never delivers cannot be read to its end
+					}
 				case "C", "P":
 				default:
 					return false
@@ -556,6 +573,17 @@ func c02Run(t *testing.T, c c02Case, build c02Builder, leakExpected bool) (v kit
 					}
 				case "Z":
 					time.Sleep(time.Duration(s.N) * c02Tick)
+				case "R":
+					buf := make([]byte, c02ReadPiece)
+					for {
+						n, err := io.ReadFull(r.Body, buf)
+						if n > 0 {
+							time.Sleep(time.Duration(s.N) * c02Tick)
+						}
+						if err != nil {
+							break
+						}
+					}
 				case "C":
 					if r.Context().Done() != nil {
 						if _, has := r.Context().Deadline(); has || q.Cn >= 0 {
@@ -635,11 +663,7 @@ func c02Run(t *testing.T, c c02Case, build c02Builder, leakExpected bool) (v kit
 	} else if res.Hang || res.Panic != "" || (res.Leak && !leakExpected) {
 		fail = "bubble: " + res.String()
 	} else {
-		known := ""
-		fail = c02Judge(c, flat, obs, maxCur, cls, &known)
-		if fail != "" && leakExpected { // full engine chain (with the log handlers) only
-			v.Known = known
-		}
+		fail = c02Judge(c, flat, obs, maxCur, cls)
 	}
 	v.Fail = fail
 	v.NonTrivial = cls["write-straddles-deadline"] || cls["panic"] || cls["latch-full-arrival"]
@@ -671,20 +695,7 @@ func c02Lower(m map[string]string) map[string]string {
 	return o
 }
 
-// Finding log-dump-races-with-body-read (FINDINGS.md): when the deadline fires while
-// the guarded inner chain is still reading the request body (here: GunzipHandler reading
-// the gzip header of a request whose client cancelled at the arrival instant) and the
-// log handler dumps the request (always under Config.Verbose), both use the unsynchronised
-// buffer of iox.DupReadCloser. The outcome of such a request is memory-corruption
-// dependent; a failure ON SUCH A REQUEST is attributed to the finding.
-const c02KnownLogDumpRace = "log-dump-races-with-body-read"
-
-func c02Judge(c c02Case, flat []c02Flat, obs []*c02Obs, maxCur []int32, cls map[string]bool, known *string) string {
-	defer func() {
-		if *known != "" {
-			cls["known-trigger:gzip-body+cancel-at-arrival+verbose-failed"] = true
-		}
-	}()
+func c02Judge(c c02Case, flat []c02Flat, obs []*c02Obs, maxCur []int32, cls map[string]bool) string {
 	type admitted struct{ leaveUS int64 }
 	latch := make([][]admitted, len(c.R))
 	behaved := make([]bool, len(c.R))
@@ -698,10 +709,18 @@ func c02Judge(c c02Case, flat []c02Flat, obs []*c02Obs, maxCur []int32, cls map[
 	cls[[]string{"httpx-globals:none", "httpx-globals:SetErrorHandler", "httpx-globals:SetErrorHandlerCtx"}[c.EH]] = true
 	for _, fl := range flat { // ascending arrival instant
 		o, q, p := obs[fl.id], fl.q, fl.plan
-		*known = ""
 		if c.V && q.GZ && p.d == 0 {
+			// the trigger of the repaired defect 68a92bc (log dump vs. gunzip's body read), see FINDINGS.md
 			cls["gzip-body+cancel-at-arrival+verbose"] = true
-			*known = c02KnownLogDumpRace // stands only if this iteration returns a failure
+		}
+		if p.readAcross {
+			cls["body-read-in-progress-at-deadline"] = true
+			if c.V || (len(p.kinds) > 0 && p.kinds[0] == http.StatusServiceUnavailable) {
+				cls["body-read-in-progress-at-deadline+request-dumped"] = true
+			}
+		}
+		if p.reads {
+			cls["handler-reads-body"] = true
 		}
 		who := fmt.Sprintf("request %d (route %d, arrival %dµs, plan d=%d f=%d panics=%v)", fl.id, q.Rt, fl.arrUS, p.d, p.f, p.panics)
 		t := c.timeoutTicks(q.Rt)
@@ -965,7 +984,6 @@ func c02Judge(c c02Case, flat []c02Flat, obs []*c02Obs, maxCur []int32, cls map[
 			}
 		}
 	}
-	*known = ""
 	if c.MC > 0 {
 		for rt := range c.R {
 			if behaved[rt] && int(maxCur[rt]) > c.MC {
@@ -1007,7 +1025,7 @@ func c02GenCase(rt *rapid.T) c02Case {
 	if rapid.Bool().Draw(rt, "mbon") {
 		c.MB = rapid.IntRange(1, 64).Draw(rt, "mb")
 	}
-	c.V = rapid.IntRange(0, 4).Draw(rt, "verbose") == 0
+	c.V = rapid.IntRange(0, 2).Draw(rt, "verbose") == 0
 	nr := rapid.SampledFrom([]int{1, 1, 1, 2}).Draw(rt, "routes")
 	for i := 0; i < nr; i++ {
 		r := c02Route{M: rapid.SampledFrom([]string{"GET", "POST", "PUT", "DELETE"}).Draw(rt, "method")}
@@ -1066,7 +1084,14 @@ func c02GenCase(rt *rapid.T) c02Case {
 				q.CL = rapid.SampledFrom([]int{q.BL, mb - 1, mb, mb, mb + 1, mb + 1, mb + 1000}).Draw(rt, "cl")
 			}
 			benign := risky[q.Rt] >= c02RiskyBudget
-			q.P = c02GenProg(rt, t, q.Cn, benign)
+			if q.GZ && t > 0 && rapid.IntRange(0, 2).Draw(rt, "gzcancel") == 0 {
+				q.Cn = 0 // the deadline coincides with GunzipHandler's read of the gzip header
+			}
+			readable := -1 // body bytes a handler program may read; -1: none (never-delivering body)
+			if !q.BB {
+				readable = q.BL
+			}
+			q.P = c02GenProg(rt, t, q.Cn, benign, readable)
 			if benign && c02MakePlan(c, id, q).risky {
 				q.Cn = -1 // a cancel at the arrival instant would make even an immediate handler a possible 499
 			}
@@ -1096,7 +1121,7 @@ func c02Rel(rt *rapid.T, d, elapsed int, label string) int {
 	return rapid.SampledFrom(ok).Draw(rt, label)
 }
 
-func c02GenProg(rt *rapid.T, t, cn int, benign bool) []c02Step {
+func c02GenProg(rt *rapid.T, t, cn int, benign bool, readable int) []c02Step {
 	codes := []int{200, 200, 201, 302, 400, 404, 413, 499, 500, 502, 503, 599, 200, 201, 404, 500, 0, 1, 99, 1000, -1}
 	if benign {
 		var p []c02Step
@@ -1128,6 +1153,9 @@ func c02GenProg(rt *rapid.T, t, cn int, benign bool) []c02Step {
 		if canWait {
 			kinds = append(kinds, "C")
 		}
+		if readable > 0 {
+			kinds = append(kinds, "R", "R")
+		}
 		if i == n-1 || i > 1 {
 			kinds = append(kinds, "P")
 		}
@@ -1157,6 +1185,16 @@ func c02GenProg(rt *rapid.T, t, cn int, benign bool) []c02Step {
 			z := c02Rel(rt, d, elapsed, "z")
 			elapsed += z
 			p = append(p, c02Step{K: "Z", N: z})
+		case "R":
+			pieces := (readable + c02ReadPiece - 1) / c02ReadPiece
+			z := c02Rel(rt, d, elapsed, "rz") // total reading time aimed at, relative to the deadline
+			per := z / pieces
+			if per*pieces < z && rapid.Bool().Draw(rt, "rup") {
+				per++
+			}
+			elapsed += per * pieces
+			readable = 0
+			p = append(p, c02Step{K: "R", N: per})
 		case "C":
 			p = append(p, c02Step{K: "C"})
 			if elapsed < d {
